@@ -1317,6 +1317,10 @@ func (e *Entry) ApplyDeviate(deviateOpts ...DeviateOpt) []error {
 					}
 
 					if devSpec.Type != nil {
+						if deviatedNode.Kind != LeafEntry {
+							appendErr(fmt.Errorf("tried to deviate type on a non-leaf type %s", deviatedNode.Kind))
+							continue
+						}
 						deviatedNode.Type = devSpec.Type
 					}
 
